@@ -74,6 +74,7 @@ class P(vlib.Prop):
             "consumer when Receiver.Shutdown starts and exports after it returned (kind 10), slow consumers against the "
             "receiver's read/write timeouts (kind 11), bodies whose read ends early although the received prefix decodes "
             "(missing compression trailer, short of Content-Length), "
+            "receivers with explicit compression_algorithms lists x every exporter compression (kind 13), "
             "rare configurations (custom URL paths, endpoint overrides, trailing-slash and scheme-prefixed endpoints), histories of 3-8 "
             "sends against one receiver (kind 12), 0-item payloads, authenticator accepts/refuses, then random hops; raw HTTP requests over every "
             "(auth, content-encoding class, method, content-type class, body class) combination + random; raw gRPC frames "
@@ -83,7 +84,7 @@ class P(vlib.Prop):
         "Coq 8.16.1 kernel + vm_compute (coqc); no axioms (Print Assumptions: closed under the global context)",
         "translator T1 (tools/go2coq): GetHTTPStatusCodeFromStatus, shouldRetry, isRetryableStatusCode and the grpc codes constants are re-read from the current source on every run",
         "table dump by running: statusutil.NewStatusFromMsgAndHTTPCode on HTTP statuses 0..999 (overlay test), written to Generated/C15StatusUtil.v",
-        "graph dumps by running (go test -overlay, whole finite domains): writeStatusResponse / readContentType / errorHandler / writeError -> Generated/C15RecvHttpGraph.v, GetStatusFromError -> Generated/C15ErrorsGraph.v (model proved equal to them in C15/Obligations.v); scan of otlpReceiver.Shutdown's stop calls -> Generated/C15Shutdown.v; confighttp.ToServer's timeout wiring (run) -> Generated/C15ServerTimeouts.v; offered compression sets (coverage gate)",
+        "graph dumps by running (go test -overlay, whole finite domains): writeStatusResponse / readContentType / errorHandler / writeError -> Generated/C15RecvHttpGraph.v, GetStatusFromError -> Generated/C15ErrorsGraph.v (model proved equal to them in C15/Obligations.v); scan of otlpReceiver.Shutdown's stop calls -> Generated/C15Shutdown.v; confighttp.ToServer's timeout wiring (run) -> Generated/C15ServerTimeouts.v; httpContentDecompressor's enabled-decoder table for every subset of the names in two orders (run) -> Generated/C15DecodersGraph.v; offered compression sets (coverage gate)",
         "hand-written OTLP specification tables spec_grpc_retryable / spec_http_retryable (C15/Model.v), transcribed from opentelemetry-proto docs/specification.md",
         "Go harnesses harness/C15/*.go + go test -overlay; Go toolchain; loopback networking",
         "modelled by hand, tied by correspondence: GetStatusFromError, Receiver.Export (items = 0), otlphttp.go handlers/writeError/writeStatusResponse/errorHandler, confighttp handler order, processError, otlphttpexporter.export",
@@ -168,7 +169,13 @@ class P(vlib.Prop):
         if err:
             raise vlib.Broken("dump of the offered compression sets (config/confighttp) fails on the current tree: " + err.what, err.detail)
         offered = []
+        dec_lines = []
         for c in cases:
+            if c["term"].startswith("dec|"):
+                _, name, lst, state = c["term"].split("|")
+                zs = [name] + [x for x in lst.split(",") if x != ""]
+                dec_lines.append("(20%%nat, ([%s], [%s%%Z]))" % ("; ".join("%s%%Z" % z for z in zs), state))
+                continue
             if c["term"].startswith("timeouts|"):
                 vals = [int(x) for x in c["term"].split("|")[1:]]
                 names = ["ReadTimeout", "ReadHeaderTimeout", "WriteTimeout", "IdleTimeout"]
@@ -187,6 +194,21 @@ class P(vlib.Prop):
                 offered.append(name)
         if not offered:
             raise vlib.Broken("dump of the offered compression sets is empty", "")
+        seen, uniq = set(), []
+        for l in dec_lines:
+            if l not in seen:
+                seen.add(l)
+                uniq.append(l)
+        text = ("(* GENERATED by props/C15/check.py by RUNNING confighttp.httpContentDecompressor of the current /repo working tree on every\n"
+                "   subset of the seven compression names, in the default order and reversed (harness/C15/compsets_dump_test.go) - do not edit.\n"
+                "   One line = (20, ([name; configured list...], [0 absent | 1 usable decoder | 2 present but nil])).\n"
+                "   Names: 0 \"\", 1 gzip, 2 zstd, 3 zlib, 4 snappy, 5 deflate, 6 lz4. *)\n"
+                "From Coq Require Import ZArith List.\nImport ListNotations.\n\n"
+                "Definition decoders_graph : list (nat * (list Z * list Z)) := [\n%s\n].\n" % ";\n".join(uniq))
+        _write_if_changed(os.path.join(vlib.COQ, "Generated", "C15DecodersGraph.v"), text)
+        ctx.translator_manifests.append({"file": "config/confighttp/compression.go httpContentDecompressor (enabled-decoder table, dumped by running)", "lines": None,
+                                         "sha256": hashlib.sha256(text.encode()).hexdigest(),
+                                         "defines": ["decoders_graph (%d lines)" % len(uniq)], "params": None})
         self.offered_http_compressions = sorted(offered)
         ctx.extra_coverage["offered_http_compressions"] = self.offered_http_compressions
 
@@ -239,7 +261,7 @@ class P(vlib.Prop):
         """When a model-vs-dump obligation breaks: list the arguments on which the model and the current code differ."""
         if not any("Obligations.v" in w for w, _ in ctx.broken):
             return
-        for name in ("recvhttp_diff", "errors_diff"):
+        for name in ("recvhttp_diff", "errors_diff", "decoders_diff"):
             val = vlib.coq_eval_term(ctx, "C15.PropCheck", name)
             if "[]" not in val.replace(" ", "")[:40]:
                 ctx.notes.append("obligation broken: lines of the dumped graph on which Model.v and the current code differ (%s): %s" % (name, val[:1500]))
